@@ -6,7 +6,7 @@ import ast
 from typing import Dict, List, Optional, Tuple
 
 from ..model import AnalysisError, dotted
-from ..symex import (Evaluator, array_fn, call_parts, const, func_name, getitem, is_const, match_scan,
+from ..symex import (Evaluator, array_fn, call_parts, const, func_name, getitem, is_const, match_scan, mk,
                      show, strip_wrappers, subterms, sym)
 from ..rules.match import m_arrcall, m_binop
 
@@ -263,14 +263,24 @@ def pivot_pairing(ctx, fi, counter: str = "nchol"):
         if ops is not None:
             a_, b_ = strip_wrappers(ops[0]), strip_wrappers(ops[1])
 
+            def is_upto(sl):
+                if sl.op == "slice" and is_const(sl.args[0], None):
+                    up = m_binop(sl.args[1], "+")
+                    return up is not None and up[0] is v and is_const(up[1], 1)
+                return False
+
             def rows_upto(t):
-                """L[:v+1, X] -> (L, X)"""
+                """L[:v+1, X] / L[:v+1][:, X] / L[:v+1]  ->  (L, X)   (X = a full slice when all columns are taken)"""
                 if t.op == "getitem" and t.args[1].op == "tuple" and len(t.args[1].args) == 2:
                     sl, col = t.args[1].args
-                    if sl.op == "slice" and is_const(sl.args[0], None):
-                        up = m_binop(sl.args[1], "+")
-                        if up is not None and up[0] is v and is_const(up[1], 1):
-                            return t.args[0], col
+                    if is_upto(sl):
+                        return t.args[0], col
+                    inner = strip_wrappers(t.args[0])
+                    if sl.op == "slice" and all(is_const(x_, None) for x_ in sl.args) and inner.op == "getitem" and \
+                            is_upto(inner.args[1]):
+                        return inner.args[0], col
+                if t.op == "getitem" and is_upto(t.args[1]):
+                    return t.args[0], mk("slice", const(None), const(None), const(None))
                 return None
 
             ra, rb = rows_upto(a_), rows_upto(b_)
@@ -303,7 +313,29 @@ def jax_routine(ctx):
         m = m_binop(ar[0], "-")
         ok_xs = m is not None and m[0] is nmax and is_const(m[1], 1)
     ctx.ob("CAP-1", f"{q}: the scan runs nchol_max - 1 times", ok_xs, f"xs = {show(xs, maxdepth=3)}", fi)
-    cv0 = strip_wrappers(getitem(init, const("chol_vecs")))
+    # the carry holds the vector buffer and the accumulated diagonal, as a dict or as a tuple: find the component that is a
+    # buffer with row 0 written (whatever it is keyed by)
+    init_s = strip_wrappers(init)
+    keys_ = []
+    t_ = init_s
+    while t_.op == "setitem":
+        if t_.args[1] not in keys_:
+            keys_.append(t_.args[1])
+        t_ = t_.args[0]
+    if init_s.op in ("tuple", "list"):
+        keys_ = [const(i) for i in range(len(init_s.args))]
+    if init_s.op == "dict":
+        keys_ = list(init_s.args[0::2])
+    cv_key = None
+    for k_ in keys_:
+        c0 = strip_wrappers(getitem(init, k_))
+        if c0.op == "setitem" and is_const(c0.args[1], 0):
+            cv_key = k_
+    if cv_key is None:
+        cv_key = const("chol_vecs")
+    ma_keys = [k_ for k_ in keys_ if k_ is not cv_key]
+    ma_key = ma_keys[0] if len(ma_keys) == 1 else const("Mapprox")
+    cv0 = strip_wrappers(getitem(init, cv_key))
     ok0 = cv0.op == "setitem" and is_const(cv0.args[1], 0)
     ctx.ob("CAP-1", f"{q}: row 0 is written before the scan", ok0, "chol_vecs.at[0].set(...)" if ok0 else
            show(cv0, maxdepth=2)[:80], fi)
@@ -311,7 +343,7 @@ def jax_routine(ctx):
     body = ev.open_closure(f, [C, x])
     if body.op != "tuple":
         raise AnalysisError(f"{q}: unmodelled scan body")
-    cv = strip_wrappers(getitem(body.args[0], const("chol_vecs")))
+    cv = strip_wrappers(getitem(body.args[0], cv_key))
     okw, whyw = False, "body does not write chol_vecs"
     if cv.op == "setitem":
         idx = cv.args[1]
@@ -320,12 +352,12 @@ def jax_routine(ctx):
         whyw = f"writes row {show(idx)}"
     ctx.ob("CAP-1", f"{q}: iteration x writes row x + 1 (rows 1 .. nchol_max - 1)", okw, whyw, fi)
     # reads: Mapprox += chol_vecs[x] * chol_vecs[x]
-    ma = strip_wrappers(getitem(body.args[0], const("Mapprox")))
+    ma = strip_wrappers(getitem(body.args[0], ma_key))
     m = m_binop(ma, "+")
     okr = False
     if m is not None:
         pr = m_binop(strip_wrappers(m[1]), "*")
-        row = getitem(getitem(C, const("chol_vecs")), x)
+        row = getitem(getitem(C, cv_key), x)
         okr = pr is not None and pr[0] is row and pr[1] is row
     ctx.ob("PAIR-4", f"{q}: the diagonal approximation adds the square of row x (written one step earlier)", okr,
            "Mapprox += L[x] * L[x]" if okr else show(ma, maxdepth=3)[:100], fi)
